@@ -20,6 +20,10 @@
 (*           sending on an unbuffered channel to the consumer, a collector    *)
 (*           goroutine closing that channel when all readers are done         *)
 (*   loop    kapacitorLoopback: deliver = WriteKapacitorPoint into wp         *)
+(*   udf     UDF node: forwards like pass (the round trip through the UDF     *)
+(*           process is an internal delay), but its stopF is stopUDF = Abort: *)
+(*           whatever it holds is dropped, it returns "node aborted" and      *)
+(*           aborts its parent edges (KNOWN FINDING udf-stop-aborts)          *)
 (*                                                                            *)
 (* Stop = the real protocol.  StopTask/DeleteTask: take tm.mu, delFork (close *)
 (* the source edge), et.stop: for every node in topological order stopF then  *)
@@ -196,7 +200,7 @@ Receive(n) ==
           /\ E' = [E EXCEPT ![e] = AfterEmit(@)]
           /\ cur' = [cur EXCEPT ![n] = EmitMsg(E[e])]
           /\ pc' = [pc EXCEPT ![n] =
-                      CASE NK(n) = "pass" -> AfterMsg(n, EmitMsg(E[e]))
+                      CASE NK(n) \in {"pass", "udf"} -> AfterMsg(n, EmitMsg(E[e]))
                         [] NK(n) = "influx" -> "enq"
                         [] OTHER -> "out"]
           /\ fi' = [fi EXCEPT ![n] = NextOut(n, EmitMsg(E[e]), 1)]
@@ -394,7 +398,9 @@ Exit(n) ==
 UnchangedNodes == UNCHANGED <<pc, cur, fi, nerr, hq, rd, mclosed, udone, dropped, panicked>>
 
 \* first thing et.stop does for node i: stopF.  Only the original influxDBOut has one that matters here.
-StopFState(i) == IF NK(i) = "influx" /\ InfluxStopF THEN "fl1" ELSE "wait"
+StopFState(i) == CASE NK(i) = "influx" /\ InfluxStopF -> "fl1"
+                   [] NK(i) = "udf" -> "uab"
+                   [] OTHER -> "wait"
 
 \* StopTask: tm.mu.Lock (waits for a forkPoint in progress), delFork = close the source edge
 StopTaskBegin ==
@@ -442,6 +448,16 @@ StopAbortWait ==
     /\ sp' = [sp EXCEPT !.at = "wait"]
     /\ UNCHANGED <<topo, kind, next, wp, wclosed, fk, lock, sdel, E, wb, accepted, delivered, refused, failed>>
     /\ UnchangedNodes
+\* stopUDF = udf.Abort(errNodeAborted): the node drops what it holds and returns an error
+StopUdfAbort ==
+    /\ sp.at = "uab"
+    /\ IF pc[sp.i] \in {"exit", "done"}
+         THEN UNCHANGED <<pc, nerr>>
+         ELSE /\ pc' = [pc EXCEPT ![sp.i] = "exit"]
+              /\ nerr' = [nerr EXCEPT ![sp.i] = TRUE]
+    /\ sp' = [sp EXCEPT !.at = "wait"]
+    /\ UNCHANGED <<topo, kind, next, wp, wclosed, fk, lock, sdel, E, wb, accepted, delivered, refused, failed>>
+    /\ UNCHANGED <<cur, fi, hq, rd, mclosed, udone, dropped, panicked>>
 \* n.Wait(): the node goroutine has sent its error; next node, or done: release tm.mu
 StopWait ==
     /\ sp.at = "wait" /\ pc[sp.i] = "done"
@@ -474,7 +490,7 @@ Next ==
     \/ Write \/ ForkTake \/ ForkRLock \/ ForkCollect
     \/ \E n \in Nodes : NodeStep(n)
     \/ \E e \in EIdx : ReaderEmit(e) \/ ReaderSend(e) \/ ReaderRelease(e)
-    \/ StopTaskBegin \/ CloseBegin \/ DrainDone \/ StopFlush \/ StopAbort \/ StopAbortWait \/ StopWait
+    \/ StopTaskBegin \/ CloseBegin \/ DrainDone \/ StopFlush \/ StopAbort \/ StopAbortWait \/ StopUdfAbort \/ StopWait
     \/ Terminated
 
 \* Every enabled step is eventually taken (each process is a goroutine that the Go scheduler runs;
@@ -486,13 +502,13 @@ Spec == Init /\ [][Next]_vars /\ WF_vars(Next)
 -----------------------------------------------------------------------------
 (* Properties                                                                 *)
 
-Kinds == {"pass", "sync", "influx", "alert", "union", "loop"}
+Kinds == {"pass", "sync", "influx", "alert", "union", "loop", "udf"}
 TypeOK ==
     /\ next \in 1..(MaxPts + 1)
     /\ Len(wp.buf) <= K
     /\ \A e \in EIdx : Len(E[e].buf) <= K
     /\ lock \in {"free", "S"}
-    /\ sp.at \in {"idle", "drainw", "fl1", "ab", "abw", "wait", "stopped"}
+    /\ sp.at \in {"idle", "drainw", "fl1", "ab", "abw", "uab", "wait", "stopped"}
     /\ \A n \in Nodes : /\ NK(n) \in Kinds
                         /\ pc[n] \in {"start", "run", "fwd", "out", "enq", "fin", "finw", "fl1", "ab", "abw", "exit", "done"}
     /\ accepted \subseteq 1..MaxPts
